@@ -1,12 +1,11 @@
 #!/bin/bash
-# tools/import_seeded.sh <ID> <n>  — copy /tmp/wt-<ID>/_out/{patch,demo,notes}<n>.* to /verif/seeded/<ID>-<n>/ and evaluate
+# tools/import_seeded.sh <ID> <n> [srcdir] [dst-n] — copy <srcdir>/{patch,demo,notes}<n>.* to /verif/seeded/<ID>-<dst-n>/ and evaluate
 set -u
-ID="$1"; N="$2"
-SRC="/tmp/wt-$ID/_out"
-DST="/verif/seeded/$ID-$N"
+ID="$1"; N="$2"; SRC="${3:-/tmp/wt-$ID/_out}"; DN="${4:-$N}"
+DST="/verif/seeded/$ID-$DN"
 mkdir -p "$DST"
 cp "$SRC/patch$N.diff" "$DST/patch.diff" || exit 3
 cp "$SRC/demo$N.rs" "$DST/demo.rs" || exit 3
 cp "$SRC/notes$N.md" "$DST/notes.md" 2>/dev/null
-/verif/tools/eval_seeded.sh "$DST/patch.diff" "$DST/demo.rs" "$ID" "$ID-$N" | tail -1 > "$DST/eval.json"
+/verif/tools/eval_seeded.sh "$DST/patch.diff" "$DST/demo.rs" "$ID" "$ID-$DN" | tail -1 > "$DST/eval.json"
 cat "$DST/eval.json"
